@@ -186,7 +186,7 @@ def py_code_line_count(lines):
     return sum(1 for line in lines if py_is_code_line(line))
 
 
-@lemma(props=["C16"], types=dict(lines=SeqOf(Str)), name="py-loc-filter-length-is-count")
+@lemma(props=["C16", "C13"], types=dict(lines=SeqOf(Str)), name="py-loc-filter-length-is-count")
 def py_loc_lemma(lines):
     """The list built by heuristics.count_loc has as many elements as there are code lines."""
     if len(lines) == 0:
@@ -195,7 +195,7 @@ def py_loc_lemma(lines):
     return len([s for line in lines if (s := line.strip()) and not s.startswith("#")]) == py_code_line_count(lines)
 
 
-@contract(H + "count_loc", props=["C16"], types=dict(class_node=PyNode, source=Str), returns=Int)
+@contract(H + "count_loc", props=["C16", "C13"], types=dict(class_node=PyNode, source=Str), returns=Int)
 class CountLoc:
     def requires(class_node, source):
         return class_node is not None
@@ -233,11 +233,21 @@ class PyFindAllClasses:
             classes + [node for node in rest if isinstance(node, ast.ClassDef)]
 
 
+def py_metrics(class_node, source, config):
+    """Metrics record of one Python class (what analyze_class returns)."""
+    return mk(ClassMetrics, class_name=class_node.name, method_count=py_method_count(class_node.body),
+              loc=py_code_line_count(py_class_lines(class_node, source)),
+              has_keyword=has_keyword(class_node.name, config.keywords), line=class_node.lineno, column=class_node.col_offset)
+
+
 @contract(PA + "analyze_class", props=["C16"], types=dict(class_node=PyNode, source=Str, config=SRPConfigT),
           returns=ClassMetrics)
 class PyAnalyzeClass:
     def requires(class_node, source, config):
         return class_node is not None
+
+    def value(class_node, source, config):
+        return py_metrics(class_node, source, config)
 
     def ensures_metrics(class_node, source, config, result):
         return (result["method_count"] == py_method_count(class_node.body)
@@ -267,6 +277,9 @@ class PyWrapFindAllClasses:
 class PyWrapAnalyzeClass:
     def requires(self, class_node, source, config):
         return class_node is not None
+
+    def value(self, class_node, source, config):
+        return py_metrics(class_node, source, config)
 
     def ensures_metrics(self, class_node, source, config, result):
         return (result["method_count"] == py_method_count(class_node.body)
@@ -309,15 +322,6 @@ def ts_method_count(class_node):
     return 0 if body is None else sum(1 for child in body.children if ts_is_public_method(child))
 
 
-def ts_has_text(n: TSNode) -> Bool:
-    return n is not None and n.text is not None
-
-
-def ts_idents_have_text(s: SeqOf(TSNode)) -> Bool:
-    """tree-sitter invariant: nodes obtained from a parsed source carry their text (trusted)."""
-    return len(s) == 0 or ((s[0].type != "property_identifier" or s[0].text is not None) and ts_idents_have_text(s[1:]))
-
-
 @contract(TM + "_get_class_body", props=["C16"], types=dict(class_node=TSNode, child=TSNode), returns=TSNode)
 class TsGetClassBody:
     def requires(class_node):
@@ -333,33 +337,22 @@ class TsGetClassBody:
 @contract(TM + "_get_method_name", props=["C16"], types=dict(node=TSNode, child=TSNode), returns=Opt(Str))
 class TsGetMethodName:
     def requires(node):
-        return node is not None and ts_idents_have_text(node.children)
+        return node is not None
 
     def value(node):
         return ts_method_name(node)
 
     def inv0(node, rest):
-        return first_child_of_type(node.children, "property_identifier") == first_child_of_type(rest, "property_identifier") \
-            and ts_idents_have_text(rest)
+        return first_child_of_type(node.children, "property_identifier") == first_child_of_type(rest, "property_identifier")
 
 
 @contract(TM + "_is_countable_method", props=["C16"], types=dict(node=TSNode, method_name=Opt(Str)), returns=Bool)
 class TsIsCountableMethod:
     def requires(node):
-        return node is not None and ts_idents_have_text(node.children)
+        return node is not None
 
     def value(node):
         return ts_is_public_method(node)
-
-
-def ts_methods_have_text(s: SeqOf(TSNode)) -> Bool:
-    return len(s) == 0 or (ts_idents_have_text(s[0].children) and ts_methods_have_text(s[1:]))
-
-
-def ts_class_wf(class_node):
-    """Trusted tree-sitter fact: the identifiers of the class members carry their text."""
-    return class_node is not None and (first_child_of_type(class_node.children, "class_body") is None
-                                       or ts_methods_have_text(first_child_of_type(class_node.children, "class_body").children))
 
 
 def ts_count_from(s: SeqOf(TSNode)) -> Int:
@@ -380,7 +373,7 @@ def ts_count_lemma(s):
           returns=Int)
 class TsCountMethods:
     def requires(class_node):
-        return ts_class_wf(class_node)
+        return class_node is not None
 
     def lemmas_public_methods(class_node):
         return implies(first_child_of_type(class_node.children, "class_body") is not None,
@@ -391,7 +384,7 @@ class TsCountMethods:
 
     def inv0(class_node, class_body, method_count, rest):
         return class_body is not None and class_body == first_child_of_type(class_node.children, "class_body") \
-            and ts_count_from(class_body.children) == method_count + ts_count_from(rest) and ts_methods_have_text(rest)
+            and ts_count_from(class_body.children) == method_count + ts_count_from(rest)
 
 
 def ts_is_code_line(line):
@@ -415,9 +408,7 @@ def ts_line_span(node):
 @contract(TM + "count_loc", props=["C16"], types=dict(class_node=TSNode, source=Str), returns=Int)
 class TsCountLoc:
     def requires(class_node, source):
-        # tree-sitter facts: the node ends after it starts and lies inside the source text
-        return (class_node is not None and class_node.start_point[0] <= class_node.end_point[0]
-                and class_node.end_point[0] < len(source.split("\n")))
+        return class_node is not None
 
     def ensures_code_lines(class_node, source, result):
         # documented metric (expected to fail: known finding C16-ts-loc-span)
@@ -440,7 +431,7 @@ TsCalcT = Rec("TypeScriptMetricsCalculator", cls=TM + "TypeScriptMetricsCalculat
 @contract(TM + "TypeScriptMetricsCalculator.count_methods", props=["C16"], types=dict(self=TsCalcT, class_node=TSNode), returns=Int)
 class TsCalcCountMethods:
     def requires(self, class_node):
-        return ts_class_wf(class_node)
+        return class_node is not None
 
     def value(self, class_node):
         return ts_method_count(class_node)
@@ -450,7 +441,7 @@ class TsCalcCountMethods:
           returns=Int)
 class TsCalcCountLoc:
     def requires(self, class_node, source):
-        return class_node is not None and class_node.start_point[0] <= class_node.end_point[0]
+        return class_node is not None
 
     def value(self, class_node, source):
         return ts_line_span(class_node)
@@ -476,17 +467,740 @@ class TsFindAllClasses:
         return implies(root_node is not None, result == ts_collect_type(root_node, "class_declaration"))
 
 
+def ts_metrics_named(class_node, name, config):
+    return mk(ClassMetrics, class_name=name, method_count=ts_method_count(class_node), loc=ts_line_span(class_node),
+              has_keyword=has_keyword(name, config.keywords), line=class_node.start_point[0] + 1,
+              column=class_node.start_point[1])
+
+
+def ts_metrics(class_node, config):
+    """Metrics record of one TypeScript class (two explicit cases so that the keyword test captures a plain name)."""
+    return ts_metrics_named(class_node, "UnnamedClass", config) if ts_identifier_name(class_node) == "anonymous" \
+        else ts_metrics_named(class_node, ts_identifier_name(class_node), config)
+
+
 @contract(TA + "TypeScriptSRPAnalyzer.analyze_class", props=["C16"],
           types=dict(self=TsAnalyzerT, class_node=TSNode, source=Str, config=SRPConfigT), returns=ClassMetrics)
 class TsAnalyzeClass:
     def requires(self, class_node, source, config):
-        return ts_class_wf(class_node) and class_node.start_point[0] <= class_node.end_point[0]
+        return class_node is not None
 
-    def ensures_metrics(self, class_node, source, config, result):
-        return (result["method_count"] == ts_method_count(class_node)
-                and result["loc"] == ts_line_span(class_node)
-                and result["has_keyword"] == has_keyword(ts_class_name(class_node), config.keywords))
+    def value(self, class_node, source, config):
+        return ts_metrics(class_node, config)
+
+    def ensures_method_count(self, class_node, source, config, result):
+        return result["method_count"] == ts_method_count(class_node)
+
+    def ensures_loc(self, class_node, source, config, result):
+        return result["loc"] == ts_line_span(class_node)
+
+    def ensures_keyword(self, class_node, source, config, result):
+        return (result["has_keyword"] == has_keyword("UnnamedClass", config.keywords)) \
+            if ts_identifier_name(class_node) == "anonymous" \
+            else (result["has_keyword"] == has_keyword(ts_identifier_name(class_node), config.keywords))
 
     def ensures_header_position(self, class_node, source, config, result):
         return (result["class_name"] == ts_class_name(class_node) and result["line"] == class_node.start_point[0] + 1
                 and result["column"] == class_node.start_point[1])
+
+
+# ====================================================================================== rust_analyzer.py
+from contracts.c17_clone import first_of_type, node_text  # noqa: E402  (spec functions of the RustBaseAnalyzer contracts)
+from contracts.c17_rust_context import collect_type  # noqa: E402
+
+RA = "src/linters/srp/rust_analyzer.py::"
+RustAnalyzerT = Rec("RustSRPAnalyzer", cls=RA + "RustSRPAnalyzer", tree_sitter_available=Bool)
+
+
+def rs_ident_name(node):
+    """RustBaseAnalyzer.extract_identifier_name."""
+    return "anonymous" if first_of_type(node.children, "identifier") is None \
+        else node_text(first_of_type(node.children, "identifier"))
+
+
+def rs_type_name(node):
+    """Name of a struct_item / target of an impl_item: its first type_identifier child ("" if none)."""
+    return "" if first_of_type(node.children, "type_identifier") is None \
+        else node_text(first_of_type(node.children, "type_identifier"))
+
+
+def rs_is_public_method(child):
+    """Property text / docs: public methods of a struct = function items of its impl blocks not prefixed with '_'."""
+    return child.type == "function_item" and not rs_ident_name(child).startswith("_")
+
+
+def rs_count_from(s: SeqOf(TSNode)) -> Int:
+    if len(s) == 0:
+        return 0
+    return (1 if rs_is_public_method(s[0]) else 0) + rs_count_from(s[1:])
+
+
+def rs_impl_method_count(impl_node):
+    """Number of public methods of one impl block (0 if it has no declaration list)."""
+    decls = first_of_type(impl_node.children, "declaration_list")
+    return 0 if decls is None else rs_count_from(decls.children)
+
+
+def rs_is_code_line(line):
+    """docs: lines of code exclude blank lines and comments (truthy iff the stripped line is non-empty and does not
+    start a `//` comment; same expression shape as RustSRPAnalyzer._node_loc so that both denote one counting function)."""
+    return line.strip() and not line.strip().startswith("//")
+
+
+def rs_node_lines(node, source):
+    return source.split("\n")[node.start_point[0]:node.end_point[0] + 1]
+
+
+def rs_node_loc(node, source):
+    return sum(1 for line in rs_node_lines(node, source) if rs_is_code_line(line))
+
+
+@contract(RA + "RustSRPAnalyzer.find_all_structs", props=["C16"], types=dict(self=RustAnalyzerT, root_node=TSNode),
+          returns=SeqOf(TSNode))
+class RsFindAllStructs:
+    def ensures_all_structs(self, root_node, result):
+        return implies(root_node is not None, result == collect_type(root_node, "struct_item"))
+
+
+@contract(RA + "RustSRPAnalyzer.find_all_impl_blocks", props=["C16"], types=dict(self=RustAnalyzerT, root_node=TSNode),
+          returns=SeqOf(TSNode))
+class RsFindAllImplBlocks:
+    def ensures_all_impls(self, root_node, result):
+        return implies(root_node is not None, result == collect_type(root_node, "impl_item"))
+
+
+@contract(RA + "RustSRPAnalyzer.get_impl_target_name", props=["C16"], types=dict(impl_node=TSNode, child=TSNode), returns=Str)
+class RsGetImplTargetName:
+    def requires(self, impl_node):
+        return impl_node is not None
+
+    def value(self, impl_node):
+        return rs_type_name(impl_node)
+
+    def inv0(self, impl_node, rest):
+        return first_of_type(impl_node.children, "type_identifier") == first_of_type(rest, "type_identifier")
+
+
+@contract(RA + "RustSRPAnalyzer._find_declaration_list", props=["C16"], types=dict(self=RustAnalyzerT, impl_node=TSNode, child=TSNode),
+          returns=TSNode)
+class RsFindDeclarationList:
+    def requires(self, impl_node):
+        return impl_node is not None
+
+    def value(self, impl_node):
+        return first_of_type(impl_node.children, "declaration_list")
+
+    def inv0(self, impl_node, rest):
+        return first_of_type(impl_node.children, "declaration_list") == first_of_type(rest, "declaration_list")
+
+
+@contract(RA + "RustSRPAnalyzer._is_countable_method", props=["C16"], types=dict(func_node=TSNode, name=Str), returns=Bool)
+class RsIsCountableMethod:
+    def requires(self, func_node):
+        return func_node is not None
+
+    def value(self, func_node):
+        return not rs_ident_name(func_node).startswith("_")
+
+
+@lemma(props=["C16"], types=dict(s=SeqOf(TSNode)), name="rs-count-is-public-method-count")
+def rs_count_lemma(s):
+    if len(s) == 0:
+        return rs_count_from(s) == sum(1 for child in s if rs_is_public_method(child))
+    ih(rs_count_lemma, s[1:])
+    return rs_count_from(s) == sum(1 for child in s if rs_is_public_method(child))
+
+
+@contract(RA + "RustSRPAnalyzer.count_impl_methods", props=["C16"],
+          types=dict(impl_node=TSNode, declaration_list=TSNode, count=Int, child=TSNode), returns=Int)
+class RsCountImplMethods:
+    def requires(self, impl_node):
+        return impl_node is not None
+
+    def lemmas_public_methods(self, impl_node):
+        return implies(first_of_type(impl_node.children, "declaration_list") is not None,
+                       rs_count_lemma(first_of_type(impl_node.children, "declaration_list").children))
+
+    def value(self, impl_node):
+        return rs_impl_method_count(impl_node)
+
+    def ensures_public_methods(self, impl_node, result):
+        return implies(first_of_type(impl_node.children, "declaration_list") is not None,
+                       result == sum(1 for child in first_of_type(impl_node.children, "declaration_list").children
+                                     if rs_is_public_method(child)))
+
+    def inv0(self, impl_node, declaration_list, count, rest):
+        return declaration_list is not None and declaration_list == first_of_type(impl_node.children, "declaration_list") \
+            and rs_count_from(declaration_list.children) == count + rs_count_from(rest)
+
+
+@contract(RA + "RustSRPAnalyzer._node_loc", props=["C16", "C13"], types=dict(self=RustAnalyzerT, node=TSNode, source=Str), returns=Int)
+class RsNodeLoc:
+    def requires(self, node, source):
+        return node is not None
+
+    def value(self, node, source):
+        return rs_node_loc(node, source)
+
+
+def rs_documented_code_line(line):
+    return line.strip() != "" and not line.strip().startswith("//")
+
+
+@lemma(props=["C16", "C13"], types=dict(lines=SeqOf(Str)), name="rs-code-lines-are-nonblank-noncomment-lines")
+def rs_code_line_lemma(lines):
+    """The counting predicate of _node_loc is the documented one (non-blank and not a // comment line)."""
+    if len(lines) == 0:
+        return sum(1 for line in lines if rs_is_code_line(line)) == sum(1 for line in lines if rs_documented_code_line(line))
+    ih(rs_code_line_lemma, lines[1:])
+    return sum(1 for line in lines if rs_is_code_line(line)) == sum(1 for line in lines if rs_documented_code_line(line))
+
+
+def rs_total_methods(impl_blocks):
+    """Property text: a Rust struct is judged together with ALL its impl blocks: public methods are summed."""
+    return sum(rs_impl_method_count(impl_node) for impl_node in impl_blocks)
+
+
+def rs_total_loc(struct_node, impl_blocks, source):
+    return rs_node_loc(struct_node, source) + sum(rs_node_loc(impl_node, source) for impl_node in impl_blocks)
+
+
+@contract(RA + "RustSRPAnalyzer._count_total_methods", props=["C16"], types=dict(impl_blocks=SeqOf(TSNode)), returns=Int)
+class RsCountTotalMethods:
+    def value(self, impl_blocks):
+        return rs_total_methods(impl_blocks)
+
+
+@contract(RA + "RustSRPAnalyzer._calculate_loc", props=["C16"],
+          types=dict(self=RustAnalyzerT, struct_node=TSNode, impl_blocks=SeqOf(TSNode), source=Str), returns=Int)
+class RsCalculateLoc:
+    def requires(self, struct_node, impl_blocks, source):
+        return struct_node is not None
+
+    def value(self, struct_node, impl_blocks, source):
+        return rs_total_loc(struct_node, impl_blocks, source)
+
+
+def rs_struct_name(node):
+    return node_text(first_of_type(node.children, "type_identifier")) \
+        if first_of_type(node.children, "type_identifier") is not None else rs_ident_name(node)
+
+
+@contract(RA + "RustSRPAnalyzer._extract_type_name", props=["C16"], types=dict(node=TSNode, child=TSNode), returns=Str)
+class RsExtractTypeName:
+    def requires(self, node):
+        return node is not None
+
+    def value(self, node):
+        return rs_struct_name(node)
+
+    def inv0(self, node, rest):
+        return first_of_type(node.children, "type_identifier") == first_of_type(rest, "type_identifier")
+
+
+def rs_metrics(struct_node, impl_blocks, source, config):
+    """Metrics record of one Rust struct judged together with its impl blocks."""
+    return mk(ClassMetrics, class_name=rs_struct_name(struct_node), method_count=rs_total_methods(impl_blocks),
+              loc=rs_total_loc(struct_node, impl_blocks, source),
+              has_keyword=has_keyword(rs_struct_name(struct_node), config.keywords),
+              line=struct_node.start_point[0] + 1, column=struct_node.start_point[1])
+
+
+@contract(RA + "RustSRPAnalyzer.analyze_struct", props=["C16"],
+          types=dict(struct_node=TSNode, impl_blocks=SeqOf(TSNode), source=Str, config=SRPConfigT), returns=ClassMetrics)
+class RsAnalyzeStruct:
+    def requires(self, struct_node, impl_blocks, source, config):
+        return struct_node is not None
+
+    def value(self, struct_node, impl_blocks, source, config):
+        return rs_metrics(struct_node, impl_blocks, source, config)
+
+    def ensures_method_count(self, struct_node, impl_blocks, source, config, result):
+        return result["method_count"] == rs_total_methods(impl_blocks)
+
+    def ensures_loc(self, struct_node, impl_blocks, source, config, result):
+        return result["loc"] == rs_total_loc(struct_node, impl_blocks, source)
+
+    def ensures_keyword(self, struct_node, impl_blocks, source, config, result):
+        return result["has_keyword"] == has_keyword(rs_struct_name(struct_node), config.keywords)
+
+    def ensures_header_position(self, struct_node, impl_blocks, source, config, result):
+        return (result["class_name"] == rs_struct_name(struct_node) and result["line"] == struct_node.start_point[0] + 1
+                and result["column"] == struct_node.start_point[1])
+
+
+# ====================================================================================== class_analyzer.py
+from pyvc.api import uf  # noqa: E402
+from contracts.c01_ts_base import ts_root  # noqa: E402
+from contracts.c17_rust_context import rust_root  # noqa: E402
+
+CA = "src/linters/srp/class_analyzer.py::"
+OptPathT = Opt(PathT)
+SrpCtxT = Rec("LintContext", file_path=OptPathT, file_content=Opt(Str), language=Str)
+ClassAnalyzerT = Rec("ClassAnalyzer", cls=CA + "ClassAnalyzer", _python_analyzer=PyAnalyzerT,
+                     _typescript_analyzer=TsAnalyzerT, _rust_analyzer=RustAnalyzerT)
+
+
+def _native_py_parse(text):
+    return ast.parse(text)
+
+
+py_root = uf("py_root", [Str], PyNode, concrete=_native_py_parse)   # Module node of a source text (CPython parser trusted)
+
+
+def content_of(context):
+    return context.file_content if context.file_content else ""
+
+
+@contract(CA + "ClassAnalyzer._parse_python_safely", props=["C16"], types=dict(self=ClassAnalyzerT, context=SrpCtxT),
+          returns=PyNode,
+          assumed="CPython parser (ast.parse, external): returns the Module node of the file content; the SyntaxError "
+                  "branch (a one-element list with an srp.syntax-error violation) is outside the model: C16 quantifies "
+                  "over parseable programs")
+class ParsePythonSafely:
+    def ensures_root(self, context, result):
+        return result is not None and result == py_root(content_of(context))
+
+
+@contract(CA + "ClassAnalyzer.analyze_python", props=["C16"], types=dict(self=ClassAnalyzerT, context=SrpCtxT, config=SRPConfigT),
+          returns=SeqOf(ClassMetrics))
+class AnalyzePython:
+    """One metrics record per class definition of the file, in ast.walk order."""
+    def value(self, context, config):
+        return [py_metrics(class_node, content_of(context), config)
+                for class_node in [node for node in py_root(content_of(context)).walk if isinstance(node, ast.ClassDef)]]
+
+
+@contract(CA + "ClassAnalyzer.analyze_typescript", props=["C16"],
+          types=dict(self=ClassAnalyzerT, context=SrpCtxT, config=SRPConfigT, root_node=Opt(TSNode)), returns=SeqOf(ClassMetrics))
+class AnalyzeTypescript:
+    """One metrics record per class_declaration of the file, in document order (nothing without a parser)."""
+    def ensures_one_record_per_class(self, context, config, result):
+        return result == ([] if ts_root(content_of(context)) is None else
+                          [ts_metrics(class_node, config) for class_node in
+                           ts_collect_type(ts_root(content_of(context)), "class_declaration")])
+
+
+# ---- Rust: impl blocks grouped by the type they target -------------------------------------------------------------
+from pyvc.api import Opaque  # noqa: E402
+from pyvc.ex_call import external  # noqa: E402
+import z3 as _z3  # noqa: E402
+from pyvc.ty import VList as _VList  # noqa: E402
+
+ImplMapT = Opaque("ImplMap")      # dict[str, list[impl_item node]] as built by ClassAnalyzer._build_impl_map
+
+
+def _native_type_name(node):
+    for child in node.children:
+        if child.type == "type_identifier":
+            return "" if child.text is None else child.text.decode()
+    return ""
+
+
+def _native_group(blocks, name):
+    return [] if name == "" else [n for n in blocks if _native_type_name(n) == name]
+
+
+def _native_map(blocks):
+    out = {}
+    for n in blocks:
+        if _native_type_name(n):
+            out.setdefault(_native_type_name(n), []).append(n)
+    return out
+
+
+# impl blocks (in document order) whose target type is `name`; nothing for the empty name
+impl_group = uf("impl_group", [SeqOf(TSNode), Str], SeqOf(TSNode), concrete=_native_group)
+impl_map_of = uf("impl_map_of", [SeqOf(TSNode)], ImplMapT, concrete=_native_map)
+
+
+@external("ImplMap.get")
+def _impl_map_get(ex, args, kwargs, lineno):
+    """impl_map.get(name, []) on the map built from `blocks`: the group of that name (trusted reading of the dict)."""
+    m, name = args[0], args[1]
+    t = m.t
+    if not (_z3.is_app(t) and t.decl().name() == "uf.impl_map_of"):
+        from pyvc.ty import Unsupported
+        raise Unsupported("ImplMap.get on a map that is not impl_map_of(blocks)")
+    f = _z3.Function("uf.impl_group", SeqOf(TSNode).sort(), _z3.StringSort(), SeqOf(TSNode).sort())
+    ex.ufs_used.add("impl_group")
+    return _VList(TSNode, seq=f(t.arg(0), name.t))
+
+
+@contract(CA + "ClassAnalyzer._build_impl_map", props=["C16"], types=dict(self=ClassAnalyzerT, impl_blocks=SeqOf(TSNode)),
+          returns=ImplMapT,
+          assumed="dict of node lists filled with setdefault(...).append(...) (aliasing of list values inside a dict is "
+                  "outside the verified subset): maps every non-empty target type name to the impl blocks targeting it, "
+                  "in document order (uninterpreted impl_group, natively the obvious grouping)")
+class BuildImplMap:
+    def value(self, impl_blocks):
+        return impl_map_of(impl_blocks)
+
+
+@contract(CA + "ClassAnalyzer.analyze_rust", props=["C16"],
+          types=dict(self=ClassAnalyzerT, context=SrpCtxT, config=SRPConfigT, root_node=Opt(TSNode)), returns=SeqOf(ClassMetrics))
+class AnalyzeRust:
+    """One metrics record per struct_item, judged together with the impl blocks that target its name."""
+    def ensures_one_record_per_struct(self, context, config, result):
+        return result == ([] if rust_root(content_of(context)) is None else [
+            rs_metrics(struct_node, impl_group(collect_type(rust_root(content_of(context)), "impl_item"), rs_type_name(struct_node)),
+                       content_of(context), config)
+            for struct_node in collect_type(rust_root(content_of(context)), "struct_item")])
+
+
+# ====================================================================================== violation_builder.py
+from contracts import c12_core  # noqa: E402,F401  (contracts of BaseViolationBuilder.build)
+from contracts._common import path_str  # noqa: E402
+
+VB = "src/linters/srp/violation_builder.py::"
+SrpBuilderT = Rec("SrpViolationBuilder", cls=VB + "ViolationBuilder")
+
+
+def path_text(context):
+    """str(context.file_path or "")"""
+    return path_str(context.file_path) if context.file_path is not None else ""
+
+
+def srp_message(name, issues):
+    """Property text: the message lists exactly the exceeded criteria (with the true counts), comma separated."""
+    return f"Class '{name}' may violate SRP: {', '.join(issues)}"
+
+
+def _native_suggestion(issues):
+    from src.linters.srp.violation_builder import ViolationBuilder
+    return ViolationBuilder()._generate_suggestion(list(issues))
+
+
+srp_suggestion = uf("srp_suggestion", [SeqOf(Str)], Str, concrete=_native_suggestion)
+
+
+@contract(VB + "ViolationBuilder._generate_suggestion", props=["C16"], types=dict(self=SrpBuilderT, issues=SeqOf(Str)), returns=Str,
+          assumed="refactoring advice text only (filter/join over fixed sentences): an uninterpreted function of the "
+                  "issue list; no property clause depends on it")
+class GenerateSuggestion:
+    def value(self, issues):
+        return srp_suggestion(issues)
+
+
+@contract(VB + "ViolationBuilder.build_violation", props=["C16", "C12"],
+          types=dict(self=SrpBuilderT, metrics=ClassMetrics, issues=SeqOf(Str), rule_id=Str, context=SrpCtxT), returns=ViolationT)
+class SrpBuildViolation:
+    def value(self, metrics, issues, rule_id, context):
+        return mk(ViolationT, rule_id=rule_id, file_path=path_text(context), line=metrics["line"], column=metrics["column"],
+                  message=srp_message(metrics["class_name"], issues), severity="error", suggestion=srp_suggestion(issues))
+
+    def ensures_header_location(self, metrics, issues, rule_id, context, result):
+        # one violation at the class header: the line/column recorded in the metrics, in this file
+        return result.line == metrics["line"] and result.column == metrics["column"] and result.file_path == path_text(context)
+
+    def ensures_message_lists_issues(self, metrics, issues, rule_id, context, result):
+        return result.rule_id == rule_id and result.message == srp_message(metrics["class_name"], issues)
+
+
+# ====================================================================================== linter.py
+from contracts.c12_core import violation_of  # noqa: E402
+
+LI = "src/linters/srp/linter.py::"
+IgnoreParserT = Opaque("IgnoreDirectiveParser")
+SrpRuleT = Rec("SRPRule", cls=LI + "SRPRule", _ignore_parser=IgnoreParserT, _class_analyzer=ClassAnalyzerT,
+               _violation_builder=SrpBuilderT)
+RULE_ID = "srp.violation"
+
+# inline suppression directives are property C04's subject: for C16 an uninterpreted predicate of the violation's
+# (rule id, line) and the file content
+srp_inline_ignored = uf("srp_inline_ignored", [Str, Int, Str], Bool)
+
+
+def exceeds(metrics, config):
+    """Property text: reported iff public methods exceed max_methods, or lines of code exceed max_loc, or (keyword
+    checking on) the name contains a responsibility keyword."""
+    return (metrics["method_count"] > config.max_methods or metrics["loc"] > config.max_loc
+            or (config.check_keywords and metrics["has_keyword"]))
+
+
+def issues_of(metrics, config):
+    return expected_issues(metrics["method_count"], metrics["loc"], metrics["has_keyword"],
+                           config.max_methods, config.max_loc, config.check_keywords)
+
+
+def suppressed(metrics, context):
+    return context.file_content is not None and srp_inline_ignored(RULE_ID, metrics["line"], context.file_content)
+
+
+def srp_violation(metrics, config, context):
+    """THE violation of a class: at its header line/column, message listing exactly the exceeded criteria."""
+    return violation_of(RULE_ID, path_text(context), metrics["line"], metrics["column"],
+                        srp_message(metrics["class_name"], issues_of(metrics, config)), "error",
+                        srp_suggestion(issues_of(metrics, config)))
+
+
+def verdict(metrics, config, context):
+    """None (not reported) or the single violation of the class."""
+    return srp_violation(metrics, config, context) if exceeds(metrics, config) and not suppressed(metrics, context) else None
+
+
+@contract(LI + "SRPRule.rule_id", props=["C16"], types=dict(self=SrpRuleT), returns=Str)
+class SrpRuleId:
+    def value(self):
+        return RULE_ID
+
+
+@contract(LI + "SRPRule._should_ignore", props=["C16"], types=dict(self=SrpRuleT, violation=ViolationT, context=SrpCtxT),
+          returns=Bool,
+          assumed="inline suppression directives (ignore parser): subject of property C04; for C16 an uninterpreted "
+                  "predicate of (rule id, line, file content), False without file content")
+class SrpShouldIgnore:
+    def value(self, violation, context):
+        return context.file_content is not None and srp_inline_ignored(violation.rule_id, violation.line, context.file_content)
+
+
+@contract(LI + "SRPRule._create_violation_if_needed", props=["C16", "C12"],
+          types=dict(self=SrpRuleT, metrics=ClassMetrics, config=SRPConfigT, context=SrpCtxT, issues=SeqOf(Str)),
+          returns=Opt(ViolationT))
+class CreateViolationIfNeeded:
+    def value(self, metrics, config, context):
+        return verdict(metrics, config, context)
+
+    def ensures_reported_iff_threshold_exceeded(self, metrics, config, context, result):
+        return (result is not None) == (exceeds(metrics, config) and not suppressed(metrics, context))
+
+    def ensures_at_class_header(self, metrics, config, context, result):
+        return implies(result is not None, result.line == metrics["line"] and result.column == metrics["column"]
+                       and result.rule_id == RULE_ID)
+
+    def ensures_message_lists_exactly_the_exceeded_criteria(self, metrics, config, context, result):
+        return implies(result is not None, result.message == srp_message(metrics["class_name"], issues_of(metrics, config)))
+
+
+def reported(metrics_list, config, context):
+    """What _build_violations_from_metrics computes: the non-None verdicts, in class order."""
+    return [v for m in metrics_list if (v := verdict(m, config, context))]
+
+
+def reported_doc(metrics_list, config, context):
+    """Property text: exactly one violation for every class that exceeds a threshold (and is not suppressed by an
+    inline directive), none for the others, in class order."""
+    return [srp_violation(m, config, context) for m in metrics_list if exceeds(m, config) and not suppressed(m, context)]
+
+
+@lemma(props=["C16"], types=dict(metrics_list=SeqOf(ClassMetrics), config=SRPConfigT, context=SrpCtxT),
+       name="one-violation-per-offending-class")
+def reported_lemma(metrics_list, config, context):
+    if len(metrics_list) == 0:
+        return reported(metrics_list, config, context) == reported_doc(metrics_list, config, context)
+    ih(reported_lemma, metrics_list[1:], config, context)
+    return reported(metrics_list, config, context) == reported_doc(metrics_list, config, context)
+
+
+@contract(LI + "SRPRule._build_violations_from_metrics", props=["C16"],
+          types=dict(self=SrpRuleT, metrics_list=SeqOf(ClassMetrics), config=SRPConfigT, context=SrpCtxT),
+          returns=SeqOf(ViolationT))
+class BuildViolationsFromMetrics:
+    def value(self, metrics_list, config, context):
+        return reported(metrics_list, config, context)
+
+    def lemmas_one_violation_per_offending_class(self, metrics_list, config, context):
+        return reported_lemma(metrics_list, config, context)
+
+    def ensures_one_violation_per_offending_class(self, metrics_list, config, context, result):
+        return result == reported_doc(metrics_list, config, context)
+
+
+@contract(LI + "SRPRule._is_file_ignored", props=["C16"], types=dict(self=SrpRuleT, context=SrpCtxT, config=SRPConfigT), returns=Bool)
+class SrpIsFileIgnored:
+    def value(self, context, config):
+        return len(config.ignore) > 0 and any(pattern in (path_str(context.file_path) if context.file_path is not None else "None")
+                                              for pattern in config.ignore)
+
+
+@contract(LI + "SRPRule._should_process_file", props=["C16"], types=dict(self=SrpRuleT, context=SrpCtxT, config=SRPConfigT), returns=Bool)
+class SrpShouldProcessFile:
+    def value(self, context, config):
+        return config.enabled and not (len(config.ignore) > 0 and any(
+            pattern in (path_str(context.file_path) if context.file_path is not None else "None") for pattern in config.ignore))
+
+
+def py_reported(context, config):
+    return reported([py_metrics(class_node, content_of(context), config)
+                     for class_node in [node for node in py_root(content_of(context)).walk if isinstance(node, ast.ClassDef)]],
+                    config, context)
+
+
+@contract(LI + "SRPRule._check_python", props=["C16"], types=dict(self=SrpRuleT, context=SrpCtxT, config=SRPConfigT),
+          returns=SeqOf(ViolationT))
+class SrpCheckPython:
+    """Python: one violation per offending class of the (parseable) file."""
+    def value(self, context, config):
+        return py_reported(context, config)
+
+
+def ts_reported(context, config):
+    return reported([] if ts_root(content_of(context)) is None else
+                    [ts_metrics(class_node, config) for class_node in
+                     ts_collect_type(ts_root(content_of(context)), "class_declaration")], config, context)
+
+
+@contract(LI + "SRPRule._check_typescript", props=["C16"], types=dict(self=SrpRuleT, context=SrpCtxT, config=SRPConfigT),
+          returns=SeqOf(ViolationT))
+class SrpCheckTypescript:
+    def value(self, context, config):
+        return ts_reported(context, config)
+
+
+def rs_reported(context, config):
+    return reported([] if rust_root(content_of(context)) is None else [
+        rs_metrics(struct_node, impl_group(collect_type(rust_root(content_of(context)), "impl_item"), rs_type_name(struct_node)),
+                   content_of(context), config)
+        for struct_node in collect_type(rust_root(content_of(context)), "struct_item")], config, context)
+
+
+@contract(LI + "SRPRule._check_rust", props=["C16"], types=dict(self=SrpRuleT, context=SrpCtxT, config=SRPConfigT),
+          returns=SeqOf(ViolationT))
+class SrpCheckRust:
+    def value(self, context, config):
+        return rs_reported(context, config)
+
+
+def dispatch(context, config):
+    """Language dispatch: Python / TypeScript+JavaScript / Rust classes are judged, other languages yield nothing."""
+    return py_reported(context, config) if context.language == "python" else (
+        ts_reported(context, config) if context.language in ("typescript", "javascript") else (
+            rs_reported(context, config) if context.language == "rust" else []))
+
+
+@contract(LI + "SRPRule._dispatch_by_language", props=["C16"], types=dict(self=SrpRuleT, context=SrpCtxT, config=SRPConfigT),
+          returns=SeqOf(ViolationT))
+class SrpDispatchByLanguage:
+    def value(self, context, config):
+        return dispatch(context, config)
+
+
+srp_config_of = uf("srp_config_of", [SrpCtxT], SRPConfigT)
+
+
+@contract(LI + "SRPRule._load_config", props=["C16"], types=dict(self=SrpRuleT, context=SrpCtxT), returns=SRPConfigT,
+          assumed="generic loader load_linter_config(context, 'srp', SRPConfig) (contracted under C05 with a generic "
+                  "config record): the SRPConfig that SRPConfig.from_dict builds from the `srp` section and the file's "
+                  "language; here an uninterpreted function of the context")
+class SrpLoadConfig:
+    def value(self, context):
+        return srp_config_of(context)
+
+
+@contract(LI + "SRPRule.check", props=["C16"], types=dict(self=SrpRuleT, context=SrpCtxT, config=SRPConfigT),
+          returns=SeqOf(ViolationT), inline=["has_file_content"])
+class SrpCheck:
+    """Nothing without content, when disabled or when the file matches an ignore pattern; else the language verdicts."""
+    def ensures_verdicts(self, context, result):
+        return result == (dispatch(context, srp_config_of(context))
+                          if context.file_content is not None and srp_config_of(context).enabled
+                          and not (len(srp_config_of(context).ignore) > 0 and any(
+                              pattern in (path_str(context.file_path) if context.file_path is not None else "None")
+                              for pattern in srp_config_of(context).ignore))
+                          else [])
+
+
+# ====================================================================================== property-level lemmas
+from pyvc.api import dict_put  # noqa: E402
+
+CREATE = LI + "SRPRule._create_violation_if_needed"
+SRP_FROM_DICT = "src/linters/srp/config.py::SRPConfig.from_dict"
+
+
+@lemma(props=["C16"], types=dict(rule=SrpRuleT, metrics=ClassMetrics, config=SRPConfigT, context=SrpCtxT),
+       name="boundary-on-the-limit-not-reported")
+def boundary_on_limit(rule, metrics, config, context):
+    """A class sitting exactly on (or below) both limits, without a flagged keyword, is not reported."""
+    if not (metrics["method_count"] <= config.max_methods and metrics["loc"] <= config.max_loc
+            and not (config.check_keywords and metrics["has_keyword"])):
+        return True
+    return call(CREATE, rule, metrics, config, context) is None
+
+
+@lemma(props=["C16"], types=dict(rule=SrpRuleT, metrics=ClassMetrics, config=SRPConfigT, context=SrpCtxT),
+       name="boundary-one-above-the-limit-reported")
+def boundary_above_limit(rule, metrics, config, context):
+    """One method (or one line) above the limit is reported (unless an inline directive suppresses it), whatever the
+    other metrics are; the message names the true count and the limit."""
+    if suppressed(metrics, context):
+        return True
+    if metrics["method_count"] == config.max_methods + 1:
+        v = call(CREATE, rule, metrics, config, context)
+        return v is not None and f"{config.max_methods + 1} methods (max: {config.max_methods})" in issues_of(metrics, config)
+    if metrics["loc"] == config.max_loc + 1:
+        v = call(CREATE, rule, metrics, config, context)
+        return v is not None and f"{config.max_loc + 1} lines (max: {config.max_loc})" in issues_of(metrics, config)
+    return True
+
+
+@lemma(props=["C16"], types=dict(metrics=Metrics, config=SRPConfigT), name="message-lists-exactly-the-exceeded-criteria")
+def message_exact(metrics, config):
+    """evaluate_metrics: one entry per exceeded criterion (true counts), nothing else, in the order methods/lines/keyword."""
+    issues = call(EVAL, metrics, config)
+    ms = f"{metrics['method_count']} methods (max: {config.max_methods})"
+    ls = f"{metrics['loc']} lines (max: {config.max_loc})"
+    ks = "responsibility keyword in name"
+    # one proof path per combination of exceeded criteria
+    if metrics["method_count"] > config.max_methods:
+        if metrics["loc"] > config.max_loc:
+            if config.check_keywords and metrics["has_keyword"]:
+                return issues == [ms, ls, ks]
+            return issues == [ms, ls]
+        if config.check_keywords and metrics["has_keyword"]:
+            return issues == [ms, ks]
+        return issues == [ms]
+    if metrics["loc"] > config.max_loc:
+        if config.check_keywords and metrics["has_keyword"]:
+            return issues == [ls, ks]
+        return issues == [ls]
+    if config.check_keywords and metrics["has_keyword"]:
+        return issues == [ks]
+    return issues == []
+
+
+def srp_pick(config, language, key, default):
+    """Documented precedence: <language>.<key> over <key> over the built-in default."""
+    return (config[language][key] if language is not None and language != "" and language in config and key in config[language]
+            else (config[key] if key in config else default))
+
+
+def srp_cfg_ok(config, language):
+    """Precondition of the SRPConfig.from_dict contract (well-typed sections), spelled out."""
+    return (implies(language is not None and language != "" and language in config, isinstance(config[language], dict))
+            and implies("max_methods" in config, isinstance(config["max_methods"], int))
+            and implies("max_loc" in config, isinstance(config["max_loc"], int))
+            and implies(language is not None and language != "" and language in config,
+                        implies("max_methods" in config[language], isinstance(config[language]["max_methods"], int))
+                        and implies("max_loc" in config[language], isinstance(config[language]["max_loc"], int))))
+
+
+@lemma(props=["C16"], types=dict(config=Dict, language=Str, other=Str, section=Any),
+       name="language-override-applies-only-to-that-language")
+def override_only_own_language(config, language, other, section):
+    """Changing (adding, replacing) the override section of ANOTHER language never changes the thresholds used for
+    files of `language`; and the own section wins over the top-level value, which wins over the default."""
+    if language == other or language == "" or other in ("max_methods", "max_loc"):
+        return True
+    config2 = dict_put(config, other, section)
+    if not (srp_cfg_ok(config, language) and srp_cfg_ok(config2, language)):
+        return True
+    if not (srp_pick(config, language, "max_methods", 7) > 0 and srp_pick(config, language, "max_loc", 200) > 0
+            and srp_pick(config2, language, "max_methods", 7) > 0 and srp_pick(config2, language, "max_loc", 200) > 0):
+        return True  # from_dict rejects non-positive thresholds (ValueError), see SRPConfig.__post_init__
+    a = call(SRP_FROM_DICT, config, language)
+    b = call(SRP_FROM_DICT, config2, language)
+    return (a.max_methods == b.max_methods and a.max_loc == b.max_loc
+            and a.max_methods == srp_pick(config, language, "max_methods", 7)
+            and a.max_loc == srp_pick(config, language, "max_loc", 200))
+
+
+SyntaxErrorT = Rec("SyntaxErrorInfo", lineno=Opt(Int), offset=Opt(Int), msg=Str)
+
+
+@contract(CA + "ClassAnalyzer._create_syntax_error_violation", props=["C16", "C12"],
+          types=dict(self=ClassAnalyzerT, exc=SyntaxErrorT, context=SrpCtxT), returns=ViolationT)
+class CreateSyntaxErrorViolation:
+    def ensures_points_at_the_error(self, exc, context, result):
+        return (result.rule_id == "srp.syntax-error" and result.file_path == path_text(context)
+                and result.line == (exc.lineno if exc.lineno else 1) and result.column == (exc.offset if exc.offset else 0)
+                and result.message == f"Syntax error: {exc.msg}")
